@@ -36,8 +36,10 @@ import (
 	"fmt"
 	"os"
 	"sort"
+	"sync"
 	"testing"
 
+	"github.com/nspcc-dev/neofs-node/pkg/local_object_storage/blobstor/fstree"
 	"github.com/nspcc-dev/neofs-node/pkg/local_object_storage/engine"
 	"github.com/nspcc-dev/neofs-node/pkg/local_object_storage/shard"
 	"github.com/nspcc-dev/neofs-node/verifharness/ev"
@@ -129,6 +131,9 @@ func mkObj(c cid.ID, i int) *object.Object {
 	return o
 }
 
+// blob writes are not under test here: no 10 ms combined-write batching window.
+var fastBlob = []fstree.Option{fstree.WithCombinedCountLimit(1)}
+
 var errPay = errors.New("FS chain RPC call: connection lost")
 
 // transient / not-found error spellings rotated over the cells.
@@ -181,6 +186,38 @@ func payments(on bool) *stor.Payments {
 		}
 	})
 	return p
+}
+
+// fill stores every object of every container (setup only, so it is done by a
+// few workers to let the metabase coalesce transactions).
+func fill(put func(*object.Object) error) {
+	var objs []*object.Object
+	inner(func(u, s int, pe bool) {
+		for i := 0; i < objsPerCnr; i++ {
+			objs = append(objs, mkObj(cnrOf(u, s, pe), i))
+		}
+	})
+	const workers = 8
+	var wg sync.WaitGroup
+	errs := make([]error, workers)
+	for w := 0; w < workers; w++ {
+		wg.Add(1)
+		go func() {
+			defer wg.Done()
+			for i := w; i < len(objs); i += workers {
+				if err := put(objs[i]); err != nil {
+					errs[w] = err
+					return
+				}
+			}
+		}()
+	}
+	wg.Wait()
+	for _, err := range errs {
+		if err != nil {
+			ev.Inconclusive("fill: %v", err)
+		}
+	}
 }
 
 type reader interface {
@@ -237,6 +274,13 @@ type collector struct {
 
 // judge compares one observation with the reference decision.
 func (k *collector) judge(path string, c cell, want, got bool, obsErr error) {
+	k.judgeFrom(path, c, c.Epoch, want, got, obsErr)
+}
+
+// judgeFrom: first is the lowest epoch whose event was delivered before the
+// observation (== c.Epoch for a single event); the suspected-defect class is
+// "the unpaid mark is newer than SOME processed epoch".
+func (k *collector) judgeFrom(path string, c cell, first int, want, got bool, obsErr error) {
 	if obsErr != nil {
 		k.fails = append(k.fails, failure{c, path, obsErr.Error()})
 		return
@@ -245,7 +289,7 @@ func (k *collector) judge(path string, c cell, want, got bool, obsErr error) {
 		return
 	}
 	if got && !want {
-		if path != "startup" && underflowClass(c) {
+		if d := c; path != "startup" && underflowClass(cell{first, d.Unpaid, d.PayOn, d.Src, d.PayErr}) {
 			if k.rec.Known(fpUnderflow) {
 				k.known++
 				k.rec.Label("known:unpaid-since-after-epoch")
@@ -330,19 +374,12 @@ func TestC47ShardEpoch(t *testing.T) {
 		}
 		defer os.RemoveAll(dir)
 		ep := &stor.Epoch{}
-		sh, err := stor.OpenShard(stor.ShardCfg{Dir: dir, Epoch: ep, Payments: payments(payOn)})
+		sh, err := stor.OpenShard(stor.ShardCfg{Dir: dir, Epoch: ep, Payments: payments(payOn), FSTOpts: fastBlob})
 		if err != nil {
 			ev.Inconclusive("open shard: %v", err)
 		}
 		defer sh.Close()
-		inner(func(u, s int, pe bool) {
-			c := cnrOf(u, s, pe)
-			for i := 0; i < objsPerCnr; i++ {
-				if err := sh.Put(mkObj(c, i), nil); err != nil {
-					ev.Inconclusive("put: %v", err)
-				}
-			}
-		})
+		fill(func(o *object.Object) error { return sh.Put(o, nil) })
 		if mode == 0 {
 			ep.Set(uint64(epoch))
 			sh.VerifNewEpoch(uint64(epoch))
@@ -364,7 +401,11 @@ func TestC47ShardEpoch(t *testing.T) {
 				if oerr == nil && !got && !contains(list, id) {
 					oerr = errors.New("objects are readable but the container is missing from ListContainers")
 				}
-				k.judge("shard-epoch/"+stage, c, unpaidLong(c), got, oerr)
+				first := epoch
+				if mode == 1 {
+					first = 0
+				}
+				k.judgeFrom("shard-epoch/"+stage, c, first, unpaidLong(c), got, oerr)
 			})
 		}
 		check([]string{"single", "sequence"}[mode])
@@ -405,8 +446,8 @@ func TestC47EngineStartup(t *testing.T) {
 		ep := &stor.Epoch{}
 		cfgs := func() []stor.ShardCfg {
 			return []stor.ShardCfg{
-				{Dir: dir + "/s0", Epoch: ep, Payments: payments(payOn)},
-				{Dir: dir + "/s1", Epoch: ep, Payments: payments(payOn)},
+				{Dir: dir + "/s0", Epoch: ep, Payments: payments(payOn), FSTOpts: fastBlob},
+				{Dir: dir + "/s1", Epoch: ep, Payments: payments(payOn), FSTOpts: fastBlob},
 			}
 		}
 		// phase 0: fill without a container source
@@ -414,14 +455,7 @@ func TestC47EngineStartup(t *testing.T) {
 		if err != nil {
 			ev.Inconclusive("open engine: %v", err)
 		}
-		inner(func(u, s int, pe bool) {
-			c := cnrOf(u, s, pe)
-			for i := 0; i < objsPerCnr; i++ {
-				if err := e0.E.Put(ctx, mkObj(c, i), nil); err != nil {
-					ev.Inconclusive("engine put: %v", err)
-				}
-			}
-		})
+		fill(func(o *object.Object) error { return e0.E.Put(ctx, o, nil) })
 		if err := e0.E.Close(); err != nil {
 			ev.Inconclusive("engine close: %v", err)
 		}
